@@ -10,6 +10,10 @@ def main(tier):
     for cls in CLIENTS:
         run.add(I.ReceiveImplTask('C12', cls))
     run.add(I.ProcessQueueTask('C12'))
+    # every (re)connection starts the receive path from the new link alone: _connect_impl installs the new reader / writer and,
+    # for the serial client, an empty reassembly buffer
+    for cls in CLIENTS:
+        run.add(I.ConnectImplTask('C12', cls))
     from props import C12_extra
     C12_extra.add(run, tier)
     return run.execute()
